@@ -156,6 +156,42 @@ func init() {
 						}(g)
 					}
 					wg.Wait()
+					// bursts of simultaneous TryAcquirePermit calls on a bulkhead with one permit: exactly one caller wins, and
+					// nobody waits (a try never blocks, not even for the winner to give the permit back)
+					for burst := 0; burst < 150; burst++ {
+						b1 := bulkhead.With[string](1)
+						gate := make(chan struct{})
+						var wins, blocked atomic.Int32
+						var bw sync.WaitGroup
+						hold := make(chan struct{})
+						for g := 0; g < 8; g++ {
+							bw.Add(1)
+							go func() {
+								defer bw.Done()
+								<-gate
+								t0 := time.Now()
+								ok := b1.TryAcquirePermit()
+								if time.Since(t0) != 0 {
+									blocked.Add(1)
+								}
+								if ok {
+									wins.Add(1)
+									<-hold
+									time.Sleep(u) // the winner keeps its permit for a while (virtual time)
+									b1.ReleasePermit()
+								}
+							}()
+						}
+						close(gate)
+						synctest.Wait() // everybody has its answer, or is stuck
+						close(hold)
+						bw.Wait()
+						if wins.Load() != 1 || blocked.Load() != 0 {
+							problems++
+							emit(M{"k": "problem", "what": fmt.Sprintf("8 simultaneous TryAcquirePermit calls on a bulkhead of 1: %d succeeded, %d waited", wins.Load(), blocked.Load()), "round": r})
+							break
+						}
+					}
 					time.Sleep(time.Second)
 					synctest.Wait()
 					executions += G * 6
